@@ -439,3 +439,49 @@ func hInfinity(neg bool) float64 {
 	}
 	return one / zero
 }
+
+// the source is itself a clone (or a clone of a clone): every generation is a deep copy of the one before
+func H_C08_clone_of_clone() {
+	a, b := nondetInt(), hBytesStr(1)
+	var c any
+	switch nondetIntRange(0, 2) {
+	case 0:
+		c = NewList(NewList(a), NewObject("k", b), NewList(NewList(b), NewObject("p", NewList(a))))
+	case 1:
+		c = NewObject("x", NewList(NewList(a), NewObject("r", b)), "y", NewObject("s", NewList(b)))
+	default:
+		c = NewList(a, NewList(), NewObject(), NewList(NewObject("e", NewList())))
+	}
+	gens := []any{c}
+	for g := 0; g < 3; g++ {
+		gens = append(gens, hCloneAny(gens[g]))
+	}
+	want := hSnapAny(c)
+	for g := 1; g < len(gens); g++ {
+		verifAssert(hExact(want, hSnapAny(gens[g])), "a clone of a clone has the same content")
+	}
+	// no container is shared between any two generations
+	shared := false
+	for g := 0; g < len(gens); g++ {
+		for h := g + 1; h < len(gens); h++ {
+			var cg, ch []any
+			hContainers(gens[g], &cg)
+			hContainers(gens[h], &ch)
+			for _, p := range cg {
+				for _, q := range ch {
+					shared = shared || p == q
+				}
+			}
+		}
+	}
+	verifAssert(!shared, "no container is shared between a container, its clone and the clone of its clone")
+	// one mutation somewhere inside one generation leaves every other generation as it was
+	g := nondetIntRange(0, len(gens)-1)
+	hMutateSomewhere(gens[g])
+	for h := 0; h < len(gens); h++ {
+		if h != g {
+			verifAssert(hExact(want, hSnapAny(gens[h])), "a mutation inside one generation of clones is invisible in every other generation")
+		}
+	}
+	verifReach("end")
+}
